@@ -296,7 +296,7 @@ static int mmd1_load(struct module_data *m, HIO_HANDLE *f, const int start)
 
 		hio_seek(f, start + songname_offset, SEEK_SET);
 		for (i = 0; i < expdata.songnamelen; i++) {
-			if (i >= XMP_NAME_SIZE)
+			if (i >= XMP_NAME_SIZE - 1)	/* keep the terminating NUL */
 				break;
 			mod->name[i] = hio_read8(f);
 		}
